@@ -59,7 +59,8 @@ class _TwistedInputDescriptor(FileDescriptor):
         return self._fileno
 
     def doRead(self):
-        return self.cb()
+        # the reactor takes a true result for "connection lost": do not hand the callback's result on
+        self.cb()
 
     def getHost(self):
         raise NotImplementedError("No network operation expected")
